@@ -8,6 +8,10 @@ NOTE = ("NumPy backend only, harness shim for vmap/linear_transpose/sparse_csr/t
 CHECKS = {
  "C01": ("operator terms (size-bounded, nested leaf alphabets) x {shape, dtype, to_dense, A@x for 7 operands}; bit-exact vs reference interpreter",
          "every operator term up to the size bound over the leaf/combinator alphabets is built with the real constructors and its shape, dtype, dense form and products are compared bit-exactly with an independent reference interpreter"),
+ "C02": ("C01 term space x 14 towers over {T,H} (depth<=3) x 5 left operands; bit-exact vs transposes / left products of the reference matrix",
+         "every term of the C01 space is transposed / adjointed through every tower of depth<=3 and left-multiplied by 5 operands; dense forms, shapes, dtypes and products are compared bit-exactly with the reference interpreter"),
+ "C03": ("algebraic expressions via the overloads and functional API (10 scalars, ndarray operands, sum(), block_diag, lazify/densify) + scalar/operator + every shape-mismatched ordered leaf pair x 6 constructs",
+         "every algebraic expression up to the size bound is built through the Python overloads / functional API and compared bit-exactly (matrix, shape, admissible dtype) with the reference interpreter and differentially with the raw constructors; every incompatible ordered pair of leaves must be rejected by all six sum/product forms"),
 }
 PENDING = {}
 props = [json.loads(l) for l in open(os.path.join(ROOT, "properties.jsonl"))]
